@@ -56,12 +56,29 @@ func equalLS(a, b LockSet) bool {
 	return true
 }
 
+// sharedSuffix marks the class of a read (shared) lock of an RWMutex.
+const sharedSuffix = "#R"
+
+// HeldFor reports whether the lock of class is held before in strongly enough for an access
+// of the given kind: writes need the exclusive lock, reads are also fine under the read lock.
+func (li *LockInfo) HeldFor(in ssa.Instruction, class string, accessKind string) bool {
+	h := li.Held(in)
+	if h[class] {
+		return true
+	}
+	switch accessKind {
+	case "load", "len", "range", "maplookup", "valarg":
+		return h[class+sharedSuffix]
+	}
+	return false
+}
+
 // lockClass identifies the mutex a Lock/Unlock call operates on.
 func lockClass(recv ssa.Value) string {
 	switch x := recv.(type) {
 	case *ssa.FieldAddr:
 		pt := x.X.Type().Underlying().(*types.Pointer).Elem()
-		return typeStr(pt) + "." + fieldOfAddr(x).Name()
+		return typeStr(pt) + "." + fieldName(fieldOfAddr(x))
 	case *ssa.Global:
 		return "global:" + x.Name()
 	}
@@ -83,20 +100,32 @@ func lockOp(in ssa.Instruction) (op string, class string) {
 		return "", ""
 	}
 	n := fnName(f)
+	shared := false
 	switch n {
-	case "(*sync.Mutex).Lock", "(*sync.RWMutex).Lock", "(*sync.RWMutex).RLock":
+	case "(*sync.Mutex).Lock", "(*sync.RWMutex).Lock":
 		op = "lock"
-	case "(*sync.Mutex).Unlock", "(*sync.RWMutex).Unlock", "(*sync.RWMutex).RUnlock":
+	case "(*sync.RWMutex).RLock":
+		op, shared = "lock", true
+	case "(*sync.Mutex).Unlock", "(*sync.RWMutex).Unlock":
 		op = "unlock"
-	case "(*sync.Mutex).TryLock", "(*sync.RWMutex).TryLock", "(*sync.RWMutex).TryRLock":
+	case "(*sync.RWMutex).RUnlock":
+		op, shared = "unlock", true
+	case "(*sync.Mutex).TryLock", "(*sync.RWMutex).TryLock":
 		op = "trylock"
+	case "(*sync.RWMutex).TryRLock":
+		op, shared = "trylock", true
 	default:
 		return "", ""
 	}
 	if _, isDefer := in.(*ssa.Defer); isDefer {
 		op = "defer-" + op
 	}
-	return op, lockClass(cc.Args[0])
+	class = lockClass(cc.Args[0])
+	if shared {
+		// a read lock is a different, weaker lock: it permits reading, never writing
+		class += sharedSuffix
+	}
+	return op, class
 }
 
 type LockInfo struct {
